@@ -18,6 +18,16 @@ type SendScript struct {
 	RaceStats bool   `json:"racestats"` // DATA may be sent before later STATs
 	Tail      string `json:"tail"`      // "echo" (FIN echo then close) | "eof" (close before the receiver's FIN)
 	EOFAfter  int    `json:"eofafter"`  // for "eof": close after this many packets were sent
+	// Inject lists extra packets a hostile sender slips in (never used for
+	// conforming senders): each is sent once PacketsSent reaches After.
+	Inject []Inject `json:"inject,omitempty"`
+}
+
+type Inject struct {
+	After int    `json:"after"`
+	Type  string `json:"type"` // DATA | FIN | ERR | MARKER | REQ
+	ID    uint32 `json:"id"`
+	Data  []byte `json:"data,omitempty"`
 }
 
 type RefSendResult struct {
@@ -35,6 +45,7 @@ type RefSendResult struct {
 	Interleaved   bool   // DATA of >= 2 ids interleaved
 	ClosedEarly   bool
 	PacketsSent   int
+	Injected      int
 }
 
 type sendEvent struct {
@@ -51,7 +62,7 @@ func NewRefSendResult() *RefSendResult {
 	return &RefSendResult{Sent: map[uint32][]byte{}, Terminated: map[uint32]bool{}}
 }
 
-func RunRefSender(res *RefSendResult, end *End, stats []*types.Stat, data map[string][]byte, sc SendScript, atFin func()) *RefSendResult {
+func RunRefSender(res *RefSendResult, end *End, stats []*types.Stat, dataFor func(id uint32, st *types.Stat) []byte, sc SendScript, atFin func()) *RefSendResult {
 	if len(sc.Chunk) == 0 {
 		sc.Chunk = []int{32 * 1024}
 	}
@@ -113,7 +124,7 @@ func RunRefSender(res *RefSendResult, end *End, stats []*types.Stat, data map[st
 				return // illegal request: recorded in Reqs, never answered
 			}
 			seenIDs[ev.id] = true
-			open = append(open, &openFile{id: ev.id, data: data[st.Path]})
+			open = append(open, &openFile{id: ev.id, data: dataFor(ev.id, st)})
 		case "fin":
 			res.FinSeen = true
 			if !res.MarkerSent {
@@ -151,6 +162,36 @@ loop:
 		}
 		if ended || res.FinSeen {
 			break
+		}
+		injected := false
+		for i := range sc.Inject {
+			in := &sc.Inject[i]
+			if in.After >= 0 && res.PacketsSent >= in.After {
+				in.After = -1
+				var p *types.Packet
+				switch in.Type {
+				case "DATA":
+					p = &types.Packet{Type: types.PACKET_DATA, ID: in.ID, Data: in.Data}
+				case "FIN":
+					p = &types.Packet{Type: types.PACKET_FIN}
+				case "ERR":
+					p = &types.Packet{Type: types.PACKET_ERR, Data: in.Data}
+				case "MARKER":
+					p = &types.Packet{Type: types.PACKET_STAT}
+				case "REQ":
+					p = &types.Packet{Type: types.PACKET_REQ, ID: in.ID}
+				}
+				if p != nil {
+					res.Injected++
+					if !send(p) {
+						break loop
+					}
+					injected = true
+				}
+			}
+		}
+		if injected {
+			continue
 		}
 		if sc.Tail == "eof" && res.PacketsSent >= sc.EOFAfter {
 			res.ClosedEarly = true
